@@ -126,6 +126,35 @@ func ZZStub_os_Remove(name string) error {
 	return nil
 }
 
+// RemoveAll and Lstat are not used by the code as it stands; they are modelled
+// so that a rewrite which reaches for them is still decided rather than left
+// inconclusive. RemoveAll removes a whole subtree, file by file.
+func c20RemoveTree(n *c20Node, path string) {
+	if n.dir {
+		for _, c := range n.children {
+			if !c.gone {
+				c20RemoveTree(c, path+"/"+c.name)
+			}
+		}
+		verif.Assert(n != c20Cwd, "removed the current directory")
+	} else {
+		verif.Assert(c20Owned(n.name), "removed a file the generator does not own: "+path)
+	}
+	n.gone = true
+	c20Removes++
+}
+
+func ZZStub_os_RemoveAll(name string) error {
+	_, n := c20Find(name)
+	if n == nil {
+		return nil // RemoveAll of a missing path is not an error
+	}
+	c20RemoveTree(n, name)
+	return nil
+}
+
+func ZZStub_os_Lstat(name string) (os.FileInfo, error) { return ZZStub_os_Stat(name) }
+
 // kinds of entries
 const (
 	kGenerated = iota
